@@ -497,6 +497,11 @@ def dispatch (op : String) (a : List String) : Option String :=
     some (match (commaSplit l).mapM parseQV with
       | none => "BADARG"
       | some qs => showSet ((qvToExt qs (int! z) (int! z)).map fun r => r.map Ext.spId))
+  | "qv2exte", [l, h, v, _] =>
+    some (match (commaSplit l).mapM parseQV with
+      | none => "BADARG"
+      | some qs => showSet ((qvToExt qs (int! h) (int! v)).map fun r => r.map Ext.id))
+  | "e2qve", [ids, h, v, _] => some (showGroups s!"{h}/{v}/H" (extToQV (commaSplit ids) (int! h) (int! v)))
   | "e2qv", [ids, h, v] => some (showGroups s!"{h}/{v}/0/0" (extToQV (commaSplit ids) (int! h) (int! v)))
   | "s2qv", [ids, h, v] =>
     some (showGroups s!"{h}/{v}/0/0" (match sp2ext (commaSplit ids) with
@@ -707,12 +712,14 @@ def rejectCheck (op : String) (a : List String) (impl : String) : Option (Bool Ã
   let need (b : Bool) (tag : String) : Option (Bool Ã— String) :=
     if b && impl != "ERR" then some (false, tag ++ " malformed ID accepted: result " ++ impl.take 60) else none
   match op, a with
-  | "chgExt", ids :: _ | "mrgExt", ids :: _ | "nN", ids :: _ | "e2qv", ids :: _ | "e2qa", ids :: _ | "parse", ids :: _ =>
+  | "chgExt", ids :: _ | "mrgExt", ids :: _ | "nN", ids :: _ | "e2qv", ids :: _ | "e2qve", ids :: _ | "e2qa", ids :: _
+  | "parse", ids :: _ =>
     need (bad extOk [ids]) "ACCEPT"
   | "geom", id :: _ => need (!extOk id) "ACCEPT"
   | "fit", [id, neg] =>
     -- FitClearanceAroundExtendedSpatialID: a malformed ID or a negative clearance is an error; otherwise two layer counts â‰¥ 0
     if !extOk id || neg == "1" then need true "ACCEPT"
+    else if neg == "2" && impl != "ERR" && impl != "0:0" then some (false, "FIT clearance 0 must give 0 layers")
     else if impl == "ERR" || impl == "TIMEOUT" then none
     else (match (impl.splitOn ":").map String.toInt? with
       | [some hl, some vl] => if hl < 0 || vl < 0 then some (false, "FIT negative layer count") else none
